@@ -102,7 +102,13 @@ is_6531_local (const char *start, const char *end)
             qpair = 0;
         else {
             switch (ch) {
-            case '"':   quote = 0; break;
+            case '"': {
+                /* closing quote must be followed by '.' or be the last char */
+                const char *next = start + utf8_decode_at_byte (&u) + 1;
+                if (next < end && *next != '.')
+                    return inverse(EEAV_LPART_MISPLACED_QUOTE);
+                quote = 0;
+            } break;
             case '\\':  qpair = 1; break;
 #ifdef RFC6531_FOLLOW_RFC5322
             /* the next chars are not allowed in qtext: */
